@@ -247,8 +247,34 @@ def run_random(spec, acc, api):
             v2 = rnd.choice([[shared, shared], {'first': shared, 'last': shared}, [inner, shared, inner], {'a': [shared], 'b': {'c': shared}}, [[], []], [{}, {}, []]])
             check_value(v2, indent, acc, api, table, True)
             acc.count('shared_member_values')
+        if i % 5 == 2 and isinstance(v, (list, dict)) and v:
+            # history: the value is written, changed IN PLACE (a member replaced, a nested member replaced, the length kept) and written
+            # again - the second text is the text of the value as it is now
+            import copy
+            edit_in_place(v, rnd)
+            check_value(v, indent, acc, api, table, True)
+            fresh = copy.deepcopy(v)
+            lib, value_json = api
+            args_now, args_fresh = ([v], [fresh]) if indent is None else ([v, float(indent)], [fresh, float(indent)])
+            if lib['jsonStringify'](args_now, None) != lib['jsonStringify'](args_fresh, None) or value_json(v, indent) != value_json(fresh, indent):
+                acc.violation('text-of-an-edited-value-is-stale', f'{lib["jsonStringify"](args_now, None)!r:.200} for the value {fresh!r:.200}', {'value': refval.enc(fresh), 'indent': indent, 'history': 'edited in place'})
+            acc.count('edited_in_place_values')
         if len(acc.samples) < 2 and isinstance(v, dict) and len(v) >= 2:
             acc.sample({'value': refval.canon(v), 'indent': indent})
+
+
+def edit_in_place(v, rnd):
+    """Replace one member (at the top or one level down) by another scalar; the container keeps its identity and its length."""
+    target = v
+    if rnd.random() < 0.5:
+        nested = [m for m in (v.values() if isinstance(v, dict) else v) if isinstance(m, (list, dict)) and m]
+        if nested:
+            target = rnd.choice(nested)
+    new = rnd.choice(['edited', 12345.0, None, True, 0.5, 'x\u00e9"'])
+    if isinstance(target, dict):
+        target[rnd.choice(sorted(target))] = new
+    else:
+        target[rnd.randrange(len(target))] = new
 
 
 def failure_history(spec, acc, api):
